@@ -14,7 +14,7 @@ RULE = ('MQNet pipelines (real MQ/ZMQSender/ZMQReceiver objects, thread-less eve
         'OF.Recv.call0; Filter.process_frames is compared with OF.Loop.processFrames.  non-trivial = a run in which at least one relay skipped, deferred or re-shaped frames')
 ASSUMPTIONS = ['partial: stage A component theorems are proved (publish-or-discard, deferred-at-send, id carry, normalisation; with C01/C02/C05 receiver invariants) and the join-completeness '
                'theorem A1 in its single-topic form (all-topics, explicit and remapped subscriptions) (C03_join_complete_partial: under FIFO delivery and ANY schedule of takes, checks and timed-out calls the returned ids are '
-               'exactly the ids published by every source, none skipped); A1 for multi-topic blocks / '*' subscriptions and the edge/DAG refinements (B, C) are NOT proved - the pipeline level is '
+               'exactly the ids published by every source, none skipped); A1 for multi-topic blocks / star subscriptions and the edge/DAG refinements (B, C) are NOT proved - the pipeline level is '
                'explored, with the composition reference as oracle',
                'MQNet replaces Filter.loop_once by a 10-line replica around the real MQ object (every call timeout=0, re-armed each poll interval or on arrival); libzmq by the in-process fake',
                'message delays below the 100 ms request interval, lossless channels, no restarts (C03 hypotheses)']
